@@ -65,7 +65,7 @@ ASSUMPTIONS = [
 ]
 TIERS = {
     "quick": {"examples": 1400, "max_lines": 40, "budget_s": 150},
-    "thorough": {"examples": 60000, "max_lines": 80, "budget_s": 1300, "fuzz_runs": 1500000, "fuzz_cap_s": 300},
+    "thorough": {"examples": 60000, "max_lines": 80, "budget_s": 1300, "fuzz_runs": 4800000, "fuzz_cap_s": 300},
 }
 
 # switches ------------------------------------------------------------------------------------------------------
@@ -643,9 +643,11 @@ def _fuzz_stage(col, cfg):
         env["PYTHONHASHSEED"] = "0"
         env["C17_FUZZ_OUT"] = outdir
         runs = int(cfg["fuzz_runs"]) // max(1, col.nshards)
+        import time
+        cap = int(max(10, min(float(cfg["fuzz_cap_s"]), col.deadline - time.monotonic())))     # budget only, never a verdict
         cmd = [sys.executable, target, "-runs=%d" % runs, "-seed=%d" % (shard_seed(col.seed, col.shard) + 1),
-               "-max_total_time=%d" % int(cfg["fuzz_cap_s"]), "-max_len=512", "-timeout=60", "-artifact_prefix=" + art + os.sep,
-               "-print_final_stats=0", corpus]
+               "-max_total_time=%d" % cap, "-max_len=512", "-timeout=60", "-artifact_prefix=" + art + os.sep,
+               "-print_final_stats=0", "-dict=" + os.path.join(VERIF, "fuzz", "c17.dict"), corpus]
         if os.path.isdir(seeds):
             cmd.append(seeds)
         proc = subprocess.run(cmd, env=env, cwd=tmp, stdout=subprocess.DEVNULL, stderr=subprocess.PIPE, text=True, errors="replace")
@@ -657,12 +659,22 @@ def _fuzz_stage(col, cfg):
         col.extra["fuzz_execs"] = stats["execs"]
         col.extra["fuzz_nontrivial_execs"] = stats["nontrivial"]
         col.extra["fuzz_structured_execs"] = stats["structured"]
+        def add(case, label):
+            # fuzz-found cases are re-judged here by the same oracle; they are kept out of `evaluations` (which counts the
+            # Hypothesis cases only and must not depend on how far the fuzzer got)
+            vs, classes, _ = evaluate(case)
+            col.count("gen:" + label)
+            for v in vs:
+                col.viol_counts[v.sig] += 1
+                lst = col.violations.setdefault(v.sig, [])
+                if len(lst) < col.MAX_VIOL_PER_SIG:
+                    lst.append(v.to_json())
+            return vs
+
         for fn in sorted(os.listdir(outdir)):
             if fn.startswith("viol-") and fn.endswith(".json"):
                 with open(os.path.join(outdir, fn)) as f:
-                    case = json.load(f)
-                vs, classes, nontrivial = evaluate(case)
-                col.record(case, nontrivial, classes=["gen:atheris"] + classes, violations=vs)
+                    add(json.load(f), "atheris-collected-violation")
         # libFuzzer artifacts (crash-/timeout-/oom-): convert the bytes into a case and judge it with the same oracle
         sys.path.insert(0, os.path.dirname(target))
         try:
@@ -672,11 +684,12 @@ def _fuzz_stage(col, cfg):
         for fn in sorted(os.listdir(art)):
             with open(os.path.join(art, fn), "rb") as f:
                 case = fuzz_c17.bytes_to_case(f.read())
-            vs, classes, nontrivial = evaluate(case)
+            vs = add(case, "atheris-artifact:" + fn.split("-")[0])
             if not vs and fn.startswith("timeout-"):
-                vs = [Violation("fuzz:hang>60s", "libFuzzer reported a >60 s execution on this input", case)]
+                v = Violation("fuzz:hang>60s", "libFuzzer reported a >60 s execution on this input", case)
+                col.viol_counts[v.sig] += 1
+                col.violations.setdefault(v.sig, []).append(v.to_json())
             col.extra["fuzz_artifacts"] = col.extra.get("fuzz_artifacts", 0) + 1
-            col.record(case, nontrivial, classes=["gen:atheris-artifact"] + classes, violations=vs)
     finally:
         shutil.rmtree(tmp, ignore_errors=True)
 
